@@ -25,18 +25,19 @@ Section WithQueryer.
   Variable maxdepth qmin : nat.
   Variable v6 : bool.
   Variable Smax Fmax : nat.
-  Variable nq : cx -> prog reply.
+  Variable nq nq0 : cx -> prog reply.
+  Variable vq : cx -> prog vres.
   Hypothesis nq_ok : forall cc, over_ok (nq cc).
 
   (* Resolve checks the ledger after resolving, whatever resolve did *)
   Lemma handle_over : forall c adv w,
-    latched (fst (run adv (handle maxdepth qmin v6 Smax Fmax nq c) w)) ->
-    exists e, snd (run adv (handle maxdepth qmin v6 Smax Fmax nq c) w) = RWork e.
+    latched (fst (run adv (handle maxdepth qmin v6 Smax Fmax nq nq0 vq c) w)) ->
+    exists e, snd (run adv (handle maxdepth qmin v6 Smax Fmax nq nq0 vq c) w) = RWork e.
   Proof.
     intros c adv w. unfold handle. cbn [run].
     destruct (enforcement_error (w_led w)) eqn:E0; cbn [run]; try (intros _; eexists; reflexivity).
     rewrite run_bind.
-    destruct (run adv (resolve _ _ _ _ _ _ _ _ _ _ _) _) as [w1 r] eqn:Er. cbn [run].
+    destruct (run adv (resolve _ _ _ _ _ _ _ _ _ _ _ _ _) _) as [w1 r] eqn:Er. cbn [run].
     destruct (enforcement_error (w_led w1)) eqn:E1; cbn [fst snd]; try (intros _; eexists; reflexivity).
     intros L. exfalso. apply L. exact E1.
   Qed.
@@ -69,11 +70,11 @@ Section WithQueryer.
   Qed.
 
   (* the miss path ends in the writer's enforcement check whatever state it was entered in *)
-  Lemma pipeline_miss_over : forall c, over_ok_any (pipeline_miss maxdepth qmin v6 Smax Fmax nq c).
+  Lemma pipeline_miss_over : forall c, over_ok_any (pipeline_miss maxdepth qmin v6 Smax Fmax nq nq0 vq c).
   Proof.
     intros c adv w. unfold pipeline_miss. rewrite run_bind.
     pose proof (handle_over c adv w) as Hh.
-    destruct (run adv (handle _ _ _ _ _ _ _) w) as [w1 r]. cbn [fst snd] in Hh.
+    destruct (run adv (handle _ _ _ _ _ _ _ _ _) w) as [w1 r]. cbn [fst snd] in Hh.
     destruct r; try apply write_failure_over.
     - (* RResp: the tree was not latched when Resolve returned *)
       assert (U1 : ~ latched w1) by (intros L1; destruct (Hh L1); discriminate).
@@ -87,22 +88,22 @@ Section WithQueryer.
 
   (* on the miss path the policy failure is always rebuilt from the client's request *)
   Lemma pipeline_miss_has_ede : forall c adv w e ede,
-    snd (run adv (pipeline_miss maxdepth qmin v6 Smax Fmax nq c) w) = ReplyWork e ede -> ede = true.
+    snd (run adv (pipeline_miss maxdepth qmin v6 Smax Fmax nq nq0 vq c) w) = ReplyWork e ede -> ede = true.
   Proof.
     assert (WF : forall c b adv w e ede, snd (run adv (write_failure c b) w) = ReplyWork e ede -> ede = true).
     { intros c b adv w e ede. unfold write_failure. cbn [run].
       destruct (enforcement_error (w_led w)); cbn; try (intros H; inversion H; reflexivity).
       destruct b; [|destruct (negb (cx_be c))]; discriminate. }
     intros c adv w e ede. unfold pipeline_miss. rewrite run_bind.
-    destruct (run adv (handle _ _ _ _ _ _ _) w) as [w1 r].
+    destruct (run adv (handle _ _ _ _ _ _ _ _ _) w) as [w1 r].
     destruct r; try apply WF.
     - cbn [run]. destruct (Nat.modulo (adv (w_tick w1)) 2) as [|sf]; [|apply WF].
       rewrite run_bind. destruct (run adv (chase_gate nq c) (w_ticked w1)) as [w2 r'].
       destruct r'; try apply WF. cbn. discriminate.
   Qed.
   Lemma pipeline_miss_over_ede : forall c adv w,
-    latched (fst (run adv (pipeline_miss maxdepth qmin v6 Smax Fmax nq c) w)) ->
-    is_work_ede (snd (run adv (pipeline_miss maxdepth qmin v6 Smax Fmax nq c) w)).
+    latched (fst (run adv (pipeline_miss maxdepth qmin v6 Smax Fmax nq nq0 vq c) w)) ->
+    is_work_ede (snd (run adv (pipeline_miss maxdepth qmin v6 Smax Fmax nq nq0 vq c) w)).
   Proof.
     intros c adv w L. destruct (pipeline_miss_over c adv w L) as (e & ede & H).
     exists e. rewrite H. f_equal. eapply pipeline_miss_has_ede. exact H.
@@ -128,8 +129,8 @@ Section WithQueryer.
   Qed.
 
   Lemma pipeline_over_ede : forall c adv w, ~ latched w ->
-    latched (fst (run adv (pipeline maxdepth qmin v6 Smax Fmax nq c) w)) ->
-    is_work_ede (snd (run adv (pipeline maxdepth qmin v6 Smax Fmax nq c) w)).
+    latched (fst (run adv (pipeline maxdepth qmin v6 Smax Fmax nq nq0 vq c) w)) ->
+    is_work_ede (snd (run adv (pipeline maxdepth qmin v6 Smax Fmax nq nq0 vq c) w)).
   Proof.
     intros c adv w U. unfold pipeline. cbn [run].
     destruct (Nat.modulo (adv (w_tick w)) 2) as [|hit].
@@ -137,24 +138,32 @@ Section WithQueryer.
     - apply pipeline_hit_over_ede. exact U.
   Qed.
 
-  Lemma pipeline_over : forall c, over_ok (pipeline maxdepth qmin v6 Smax Fmax nq c).
+  Lemma pipeline_over : forall c, over_ok (pipeline maxdepth qmin v6 Smax Fmax nq nq0 vq c).
   Proof.
     intros c adv w U L. destruct (pipeline_over_ede c adv w U L) as (e & H). exists e, true. exact H.
   Qed.
 End WithQueryer.
 
-Lemma query_over : forall maxdepth qmin v6 Smax Fmax q c, over_ok (query maxdepth qmin v6 Smax Fmax q c).
+Lemma query_over : forall maxdepth qmin v6 Smax Fmax Lmax G gen q c, over_ok (queryg maxdepth qmin v6 Smax Fmax Lmax G gen q c).
 Proof.
-  intros maxdepth qmin v6 Smax Fmax q. induction q as [|q IH]; intros c adv w U L; cbn [query run] in *; [contradiction|].
+  intros maxdepth qmin v6 Smax Fmax Lmax G gen q c adv w U L.
+  destruct q as [|q]; [destruct gen; cbn in L; contradiction|].
+  assert (E : exists nq nq0 vq, queryg maxdepth qmin v6 Smax Fmax Lmax G gen (S q) c =
+                DebitInt (cx_be c)
+                  (SubRun (mk_sl (N.to_nat max_queryer_recursion - q) c)
+                     (bind (pipeline maxdepth qmin v6 Smax Fmax nq nq0 vq c)
+                        (fun r => SubEnd (EnfErr (fun e => match e with ROk => Ret r | e' => Ret (ReplyWork e' true) end)))))
+                  (fun e => Ret (ReplyWork e true))) by (destruct gen; do 3 eexists; reflexivity).
+  destruct E as (nq & nq0 & vq & E). rewrite E in *. clear E. cbn [run] in *.
   destruct (ctx_debit w kind_internal (cx_be c)) as [w1 r].
   destruct r; cbn [run fst snd] in *; try (do 2 eexists; reflexivity).
   rewrite run_bind in *.
-  destruct (run adv (pipeline _ _ _ _ _ _ _) (w_subbed w1)) as [w2 r2]. cbn [run] in *.
+  destruct (run adv (pipeline _ _ _ _ _ _ _ _ _) (w_subbed w1)) as [w2 r2]. cbn [run] in *.
   destruct (enforcement_error (w_led w2)) eqn:E; cbn [fst snd] in *; try (do 2 eexists; reflexivity).
   exfalso. apply L. exact E.
 Qed.
 
-Lemma client_over : forall maxdepth qmin v6 Smax Fmax c, over_ok (client maxdepth qmin v6 Smax Fmax c).
+Lemma client_over : forall maxdepth qmin v6 Smax Fmax Lmax G gen c, over_ok (client maxdepth qmin v6 Smax Fmax Lmax G gen c).
 Proof. intros. unfold client. apply pipeline_over. intros cc. apply query_over. Qed.
 
 Lemma fresh_unlatched : forall pol, ~ latched (fresh pol).
@@ -165,13 +174,14 @@ Qed.
 
 (* over budget  =>  SERVFAIL built by the policy path from the client's request (so it carries the
    EDE for an EDNS client), never handed to the failure cache — on the miss path and on the hit path *)
-Lemma overbudget_lemma : forall maxdepth qmin v6 Smax Fmax pol adv,
-  let '(w', r) := run adv (client maxdepth qmin v6 Smax Fmax cx0) (fresh pol) in
+Lemma overbudget_lemma : forall maxdepth qmin v6 Smax Fmax Lmax G gen pol adv,
+  let '(w', r) := run adv (client maxdepth qmin v6 Smax Fmax Lmax G gen cx0) (fresh pol) in
   latched w' -> exists e, r = ReplyWork e true.
 Proof.
   intros. unfold client.
-  pose proof (pipeline_over_ede maxdepth qmin v6 Smax Fmax (query maxdepth qmin v6 Smax Fmax (N.to_nat max_queryer_recursion))
-                (fun cc => query_over maxdepth qmin v6 Smax Fmax _ cc) cx0 adv (fresh pol) (fresh_unlatched pol)) as H.
+  match goal with |- context [pipeline _ _ _ _ _ ?nq ?nq0 ?vq cx0] =>
+    pose proof (pipeline_over_ede maxdepth qmin v6 Smax Fmax nq nq0 vq
+                  (fun cc => query_over maxdepth qmin v6 Smax Fmax Lmax G gen _ cc) cx0 adv (fresh pol) (fresh_unlatched pol)) as H end.
   destruct (run adv _ (fresh pol)) as [w' r]. exact H.
 Qed.
 
@@ -179,20 +189,20 @@ Qed.
    internal budget of 1; the reply now carries the EDE *)
 Definition witness_pol : policy := mk_T_RecursionWorkPolicy mode_enforce 128 1 4 8 32 32 32 32.
 Lemma overbudget_hit_path_example_lemma :
-  let '(w', r) := run (fun _ => 1%nat) (client 30 5 false 1 1 cx0) (fresh witness_pol) in
+  let '(w', r) := run (fun _ => 1%nat) (client 30 5 false 1 1 3 2 1 cx0) (fresh witness_pol) in
   latched w' /\ r = ReplyWork (RLimit kind_internal 1) true.
 Proof. vm_compute. split; [discriminate|reflexivity]. Qed.
 
 (* shadow = off, at the client: same reply, same upstream exchanges, same sub-queries, for every
    adversary; in neither mode is anything ever refused *)
-Lemma shadow_equals_off_lemma : forall maxdepth qmin v6 Smax Fmax pol_off pol_shadow adv,
+Lemma shadow_equals_off_lemma : forall maxdepth qmin v6 Smax Fmax Lmax G gen pol_off pol_shadow adv,
   p_mode pol_off = mode_off -> p_mode pol_shadow = mode_shadow ->
-  let p := client maxdepth qmin v6 Smax Fmax cx0 in
+  let p := client maxdepth qmin v6 Smax Fmax Lmax G gen cx0 in
   snd (run adv p (fresh pol_off)) = snd (run adv p (fresh pol_shadow)) /\
   w_exch (fst (run adv p (fresh pol_off))) = w_exch (fst (run adv p (fresh pol_shadow))) /\
   w_sub (fst (run adv p (fresh pol_off))) = w_sub (fst (run adv p (fresh pol_shadow))).
 Proof.
-  intros maxdepth qmin v6 Smax Fmax po ps adv Ho Hs p.
+  intros maxdepth qmin v6 Smax Fmax Lmax G gen po ps adv Ho Hs p.
   assert (Q1 : wquiet (fresh po)) by (split; [reflexivity|cbn; rewrite Ho; discriminate]).
   assert (Q2 : wquiet (fresh ps)) by (split; [reflexivity|cbn; rewrite Hs; discriminate]).
   assert (S0 : same_obs (fresh po) (fresh ps)) by (repeat split).
@@ -209,10 +219,10 @@ Qed.
 (* termination: every run of the client program, against every adversary, from every state, yields a
    reply.  (The content of this lemma is that [client] — with [resolve] defined by well-founded
    recursion on the code's own counters — is a definable total function; the proof is reflexivity.) *)
-Lemma resolve_terminates_lemma : forall maxdepth qmin v6 Smax Fmax adv w,
-  exists w' r, run adv (client maxdepth qmin v6 Smax Fmax cx0) w = (w', r).
+Lemma resolve_terminates_lemma : forall maxdepth qmin v6 Smax Fmax Lmax G gen adv w,
+  exists w' r, run adv (client maxdepth qmin v6 Smax Fmax Lmax G gen cx0) w = (w', r).
 Proof. intros. destruct (run adv _ w) as [w' r]. eauto. Qed.
 
-Lemma work_bound_off_lemma : forall maxdepth qmin v6 Smax Fmax adv w,
-  w_exch (fst (run adv (client maxdepth qmin v6 Smax Fmax cx0) w)) <= w_exch w + N.of_nat (work_bound maxdepth qmin Smax Fmax).
+Lemma work_bound_off_lemma : forall maxdepth qmin v6 Smax Fmax Lmax G gen adv w,
+  w_exch (fst (run adv (client maxdepth qmin v6 Smax Fmax Lmax G gen cx0) w)) <= w_exch w + N.of_nat (work_bound maxdepth qmin Smax Fmax Lmax G gen).
 Proof. intros. apply run_costs. apply client_costs. Qed.
